@@ -1,6 +1,8 @@
 (* C01 — witnesses, evaluated with the executable SHA-256 (no collision is involved: every value
-   below is computed), that the code as it stands does NOT have session consistency, and two
-   smaller binding gaps. Replayed on the Go verifiers by harness/c01 (forgery.go). *)
+   below is computed), that the code as it stands does NOT have session consistency (residual
+   family on lagging headers: session_consistency_v1_refuted), the historical witness of the family
+   closed by /repo commit d34d669 (now REJECTED by the verifier: family_a_rejected), and two smaller
+   binding gaps. Replayed on the Go verifiers by harness/c01 (forgery.go). *)
 From V Require Import Proofs.History Proofs.Fixed Proofs.Session Merkle.Sha256.
 
 Definition Hs := sha256.
@@ -47,7 +49,8 @@ Definition sessionA : list call :=
     {| c_proof := p2; c_src := 3; c_tgt := 4; c_salh := A3; c_talh := A4 |};
     {| c_proof := p3; c_src := 2; c_tgt := 4; c_salh := X; c_talh := A4 |} ].
 
-Theorem session_consistency_v1_refuted : session_inconsistent (verify_dual_proof_gen Hs false).
+(* HISTORICAL: the verifier before commit d34d669 accepted that session *)
+Theorem session_family_a_before_repair_refuted : session_inconsistent (verify_dual_proof_unrepaired Hs).
 Proof.
   exists (2, A2), sessionA, 2, A2, X. split; [|split; [|split]].
   - cbn [session sessionA]. unfold accepted. cbn [c_proof c_src c_tgt c_salh c_talh].
@@ -60,15 +63,15 @@ Proof.
   - vm_compute. discriminate.
 Qed.
 
-(* the repaired verifier rejects the first step of that session (and accepts the honest second) *)
-Example fixed_rejects_family_a :
-  verify_dual_proof_fixed Hs (Some p1) 2 3 A2 A3 = Ok false /\
-  verify_dual_proof_fixed Hs (Some p2) 3 4 A3 A4 = Ok true.
+(* the verifier as it stands rejects the first step of that session (and accepts the honest second) *)
+Example family_a_rejected :
+  verify_dual_proof Hs (Some p1) 2 3 A2 A3 = Ok false /\
+  verify_dual_proof Hs (Some p2) 3 4 A3 A4 = Ok true.
 Proof. split; vm_compute; reflexivity. Qed.
 
 (* ---------------------------------------------------------------------------------------------
    Residual family: source.BlTxID < target.BlTxID < sourceTxID (headers whose binary linking lags).
-   Neither the repair nor any check on the proof as it is transmitted covers it: the leaves
+   Neither the repair of d34d669 nor any check on the proof as it is transmitted covers it: the leaves
    source.BlTxID+1 .. target.BlTxID of the target's tree are never related to the source's own
    chain (a linear proof from target.BlTxID to sourceTxID would be needed).  Five transactions. *)
 Definition g3 := mkh 3 A2 1 (mth Hs [A1]) 3.            (* real chain, linking lags: BlTxID = 1 *)
@@ -100,22 +103,8 @@ Definition sessionB : list call :=
     {| c_proof := q3; c_src := 4; c_tgt := 5; c_salh := B4; c_talh := B5 |};
     {| c_proof := q4; c_src := 2; c_tgt := 5; c_salh := X; c_talh := B5 |} ].
 
-Theorem session_consistency_v1_fixed_refuted : session_inconsistent (verify_dual_proof_fixed Hs).
-Proof.
-  exists (2, A2), sessionB, 2, A2, X. split; [|split; [|split]].
-  - cbn [session sessionB]. unfold accepted. cbn [c_proof c_src c_tgt c_salh c_talh].
-    repeat split; try (vm_compute; reflexivity).
-    + left. reflexivity.
-    + left. reflexivity.
-    + left. reflexivity.
-    + right. reflexivity.
-  - left. reflexivity.
-  - right. vm_compute. tauto.
-  - vm_compute. discriminate.
-Qed.
-
-(* the same session is of course accepted by the verifier as it stands *)
-Theorem session_consistency_v1_lagging_refuted : session_inconsistent (verify_dual_proof_gen Hs false).
+(* session consistency of the CURRENT verifier is refuted *)
+Theorem session_consistency_v1_refuted : session_inconsistent (verify_dual_proof Hs).
 Proof.
   exists (2, A2), sessionB, 2, A2, X. split; [|split; [|split]].
   - cbn [session sessionB]. unfold accepted. cbn [c_proof c_src c_tgt c_salh c_talh].
